@@ -184,6 +184,18 @@ pub fn shrink_chain(c: &Chain, still: &mut dyn FnMut(&Chain) -> bool) -> Chain {
   while progress && rounds < 20 {
     progress = false;
     rounds += 1;
+    // a plain hot input instead of whatever the source is
+    if !matches!(cur.src, Src::Hot(_)) {
+      for k in 0..3 {
+        let mut cand = cur.clone();
+        cand.src = Src::Hot(k);
+        if still(&cand) {
+          cur = cand;
+          progress = true;
+          break;
+        }
+      }
+    }
     // drop one top-level operator
     let mut i = 0;
     while i < cur.ops.len() {
@@ -265,4 +277,345 @@ pub fn locus_of(c: &Chain) -> String {
   } else {
     names.join("+")
   }
+}
+
+// ---------------------------------------------------------------------------
+// General random pipelines over the whole catalogue (C01, C02, C17, C18)
+// ---------------------------------------------------------------------------
+use crate::vtime::MS;
+use crate::world::{Act, TAct};
+
+#[derive(Clone, Debug)]
+pub struct GenCfg {
+  pub max_depth: usize,
+  pub max_events: usize,
+  pub sched_ops: bool,
+  pub flat_ops: bool,
+  pub two_input_ops: bool,
+  pub timed_sources: bool,
+  /// percentage of pipelines that get an early-terminating operator appended
+  pub early_pct: usize,
+  /// percentage of positions that get a scheduler-using operator
+  pub sched_pct: usize,
+  pub spies: bool,
+  pub share: bool,
+}
+
+impl GenCfg {
+  pub fn full(depth: usize, events: usize) -> Self {
+    GenCfg {
+      max_depth: depth,
+      max_events: events,
+      sched_ops: true,
+      flat_ops: true,
+      two_input_ops: true,
+      timed_sources: true,
+      early_pct: 50,
+      sched_pct: 20,
+      spies: true,
+      share: true,
+    }
+  }
+}
+
+#[derive(Clone, Debug, PartialEq, Eq, Hash)]
+pub struct Pipe {
+  pub chain: Chain,
+  pub n_hot: usize,
+  pub acts: Vec<TAct>,
+  pub horizon: u64,
+}
+
+struct PG<'a> {
+  rng: &'a mut Rng,
+  cfg: &'a GenCfg,
+  n_hot: usize,
+  next_spy: u32,
+  next_id: u32,
+  uses_create: Vec<usize>,
+  endless: bool,
+}
+
+impl<'a> PG<'a> {
+  fn spy(&mut self) -> Op {
+    self.next_spy += 1;
+    Op::Spy(self.next_spy)
+  }
+  fn id(&mut self) -> u32 {
+    self.next_id += 1;
+    self.next_id
+  }
+  fn scripted(&mut self, allow_err: bool) -> Scripted {
+    let n = self.rng.below(4);
+    let mut items: Vec<(u8, Result<V, E>)> =
+      (0..n).map(|i| (self.rng.below(3) as u8, Ok(V::I(i as i64)))).collect();
+    if allow_err && self.rng.chance(1, 3) {
+      let pos = self.rng.below(items.len() + 1);
+      items.insert(pos, (self.rng.below(2) as u8, Err(ERR + 2)));
+    }
+    Scripted { items, end_pending: self.rng.below(3) as u8, endless: false, self_wake: self.rng.chance(2, 3) }
+  }
+  fn source(&mut self, depth_left: usize, allow_hot: bool) -> Src {
+    let timed = self.cfg.timed_sources && self.cfg.sched_ops;
+    loop {
+      let r = self.rng.below(if timed { 24 } else { 14 });
+      return match r {
+        0..=5 if allow_hot => Src::Hot(self.rng.below(self.n_hot)),
+        6 if allow_hot => {
+          let k = self.uses_create.len();
+          if k >= 2 {
+            continue;
+          }
+          self.uses_create.push(k);
+          Src::Create(k)
+        }
+        7 => Src::Iter((0..self.rng.below(4)).map(|i| V::I(i as i64)).collect()),
+        8 => Src::Of(V::I(self.rng.range(0, 2))),
+        9 => Src::CreateSync(random_script(self.rng, 3, 3, true)),
+        10 => match self.rng.below(6) {
+          0 => Src::OfOpt(None),
+          1 => Src::OfRes(Err(ERR + 1)),
+          2 => Src::OfFn(V::I(1)),
+          3 => Src::Repeat(V::I(2), self.rng.below(3)),
+          4 => Src::Start(V::I(0)),
+          _ => Src::OfRes(Ok(V::I(1))),
+        },
+        11 => match self.rng.below(3) {
+          0 => Src::Empty,
+          1 => Src::Never,
+          _ => Src::Throw(ERR + 1),
+        },
+        12 if depth_left > 0 => {
+          let inner = self.chain(depth_left - 1, allow_hot);
+          Src::Defer(Box::new(inner))
+        }
+        14 | 15 => {
+          self.endless = true;
+          Src::Interval([1, 3, 5, 7][self.rng.below(4)])
+        }
+        16 => {
+          self.endless = true;
+          Src::IntervalAt(*self.rng.pick(&[-5i64, 0, 2]), [2, 5][self.rng.below(2)])
+        }
+        17 | 18 => Src::Timer(V::I(self.rng.range(0, 2)), [0, 1, 4, 10][self.rng.below(4)]),
+        19 => Src::TimerAt(V::I(1), *self.rng.pick(&[-5i64, 0, 3])),
+        20 => Src::Future(self.id() + 300, self.scripted(false)),
+        21 => Src::FutureRes(self.id() + 300, self.scripted(true)),
+        22 => Src::Stream(self.id() + 300, self.scripted(false)),
+        23 => Src::StreamRes(self.id() + 300, self.scripted(true)),
+        _ => continue,
+      };
+    }
+  }
+  fn sched_op(&mut self) -> Op {
+    let d = [0u64, 1, 2, 5, 10][self.rng.below(5)];
+    let e = [Edge::Leading, Edge::Trailing, Edge::All][self.rng.below(3)];
+    match self.rng.below(12) {
+      0 | 1 => Op::Delay(d),
+      2 => Op::DelaySubscription(d),
+      3 | 4 => Op::ObserveOn,
+      5 => Op::SubscribeOn,
+      6 => Op::Debounce(d.max(1)),
+      7 => Op::ThrottleTime(d.max(1), e),
+      8 => Op::Throttle(d.max(1), e),
+      9 => Op::BufferWithTime(d.max(1)),
+      10 => Op::BufferWithCountAndTime(1 + self.rng.below(3), d.max(1)),
+      _ => Op::Delay(d),
+    }
+  }
+  fn early_op(&mut self) -> Op {
+    match self.rng.below(9) {
+      0 | 1 => Op::Take(1 + self.rng.below(3)),
+      2 => Op::TakeWhile(random_pred(self.rng)),
+      3 => Op::TakeWhileIncl(random_pred(self.rng)),
+      4 => Op::First,
+      5 => Op::ElementAt(self.rng.below(3)),
+      6 => Op::Contains(V::I(self.rng.range(0, 2))),
+      7 => Op::All(random_pred(self.rng)),
+      _ => {
+        let c = self.sub_chain(0);
+        Op::TakeUntil(Box::new(c))
+      }
+    }
+  }
+  fn sub_chain(&mut self, depth_left: usize) -> Chain {
+    let mut c = Chain::new(self.source(depth_left, true), vec![]);
+    for _ in 0..self.rng.below(2) {
+      c.ops.push(random_single_op(self.rng, 2));
+    }
+    if self.endless_src(&c.src) && self.rng.chance(2, 3) {
+      c.ops.push(Op::Take(1 + self.rng.below(3)));
+    }
+    if self.cfg.spies && self.rng.chance(1, 3) {
+      c.ops.push(self.spy());
+    }
+    c
+  }
+  fn endless_src(&self, s: &Src) -> bool {
+    matches!(s, Src::Interval(_) | Src::IntervalAt(..))
+  }
+  fn inner_table(&mut self, depth_left: usize) -> Vec<Chain> {
+    let n = 1 + self.rng.below(3);
+    (0..n)
+      .map(|_| {
+        let mut c = self.sub_chain(depth_left);
+        if self.endless_src(&c.src) && !c.ops.iter().any(|o| matches!(o, Op::Take(_))) {
+          c.ops.push(Op::Take(2));
+        }
+        c
+      })
+      .collect()
+  }
+  fn op(&mut self, depth_left: usize) -> Op {
+    let r = self.rng.below(100);
+    if self.cfg.sched_ops && r < self.cfg.sched_pct {
+      return self.sched_op();
+    }
+    let r = self.rng.below(100);
+    if self.cfg.two_input_ops && r < 18 {
+      let c = Box::new(self.sub_chain(depth_left.saturating_sub(1)));
+      return match self.rng.below(8) {
+        0 => Op::Merge(c),
+        1 => Op::Zip(c),
+        2 => Op::CombineLatest(c),
+        3 => Op::WithLatestFrom(c),
+        4 => Op::TakeUntil(c),
+        5 => Op::SkipUntil(c),
+        6 => Op::Sample(c),
+        _ => Op::Buffer(c),
+      };
+    }
+    if self.cfg.flat_ops && r < 30 {
+      let t = self.inner_table(depth_left.saturating_sub(1));
+      return match self.rng.below(7) {
+        0 => Op::MergeAll(1 + self.rng.below(3), t),
+        1 => Op::ConcatAll(t),
+        2 => Op::FlatMap(t),
+        3 => Op::ConcatMap(t),
+        4 => Op::Flatten(t),
+        5 => Op::MergeAll(usize::MAX, t),
+        _ => Op::GroupByFlat(KeyF::Mod(2)),
+      };
+    }
+    if r < 34 {
+      return Op::Finalize(self.id() + 600);
+    }
+    if self.cfg.share && r < 37 {
+      return Op::Share;
+    }
+    if r < 47 {
+      return self.early_op();
+    }
+    random_single_op(self.rng, 3)
+  }
+  fn chain(&mut self, depth: usize, allow_hot: bool) -> Chain {
+    let mut c = Chain::new(self.source(depth, allow_hot), vec![]);
+    let n = self.rng.below(depth + 1);
+    for _ in 0..n {
+      let op = self.op(depth.saturating_sub(1));
+      let wrap = self.cfg.spies
+        && (op.early_terminating() || !op.sub_chains().is_empty())
+        && self.rng.chance(1, 2);
+      if wrap {
+        let s = self.spy();
+        c.ops.push(s);
+      }
+      c.ops.push(op);
+      if wrap && self.rng.chance(1, 2) {
+        let s = self.spy();
+        c.ops.push(s);
+      }
+    }
+    c
+  }
+}
+
+fn renumber_taps(c: &mut Chain, next: &mut u32) {
+  if let Src::Defer(inner) = &mut c.src {
+    renumber_taps(inner, next)
+  }
+  for op in c.ops.iter_mut() {
+    match op {
+      Op::Tap(id) => {
+        *next += 1;
+        *id = 50 + *next;
+      }
+      Op::Merge(s)
+      | Op::Zip(s)
+      | Op::CombineLatest(s)
+      | Op::WithLatestFrom(s)
+      | Op::TakeUntil(s)
+      | Op::SkipUntil(s)
+      | Op::Sample(s)
+      | Op::Buffer(s) => renumber_taps(s, next),
+      Op::MergeAll(_, cs) | Op::ConcatAll(cs) | Op::FlatMap(cs) | Op::ConcatMap(cs) | Op::Flatten(cs) => {
+        cs.iter_mut().for_each(|s| renumber_taps(s, next))
+      }
+      _ => {}
+    }
+  }
+}
+
+fn collect_script_ids(c: &Chain, out: &mut Vec<u32>) {
+  match &c.src {
+    Src::Future(id, s) | Src::FutureRes(id, s) | Src::Stream(id, s) | Src::StreamRes(id, s) => {
+      if !s.self_wake {
+        out.push(*id)
+      }
+    }
+    Src::Defer(i) => collect_script_ids(i, out),
+    _ => {}
+  }
+  for op in &c.ops {
+    for s in op.sub_chains() {
+      collect_script_ids(s, out)
+    }
+  }
+}
+
+pub fn random_pipe(rng: &mut Rng, cfg: &GenCfg) -> Pipe {
+  let n_hot = 1 + rng.below(3);
+  let mut g = PG { rng, cfg, n_hot, next_spy: 10, next_id: 0, uses_create: vec![], endless: false };
+  let depth = 1 + g.rng.below(cfg.max_depth);
+  let mut chain = g.chain(depth, true);
+  if g.rng.below(100) < cfg.early_pct {
+    if cfg.spies && g.rng.chance(1, 2) {
+      let s = g.spy();
+      chain.ops.push(s);
+    }
+    let e = g.early_op();
+    // somewhere in the lower half of the chain, so hot inputs outlive it
+    let pos = chain.ops.len() - g.rng.below(chain.ops.len() / 2 + 1);
+    chain.ops.insert(pos, e);
+  }
+  let mut nt = 0;
+  renumber_taps(&mut chain, &mut nt);
+  let n_create = g.uses_create.len();
+  // timed scripts for every hot input and stashed create handle
+  let mut acts: Vec<TAct> = vec![];
+  let gaps = [0u64, 0, 1, 1, 2, 3, 5, 10];
+  for k in 0..n_hot + n_create {
+    let s = random_script(g.rng, cfg.max_events, 3, true);
+    let mut t = 0u64;
+    for (i, n) in s.into_iter().enumerate() {
+      t += gaps[g.rng.below(gaps.len())] * MS;
+      // unique-ish ids for hot items: input*100 + index keeps small values for predicates out;
+      // keep the small alphabet so predicates / distinct still discriminate
+      let _ = i;
+      let act = if k < n_hot { Act::In(k, n) } else { Act::Cr(k - n_hot, n) };
+      acts.push(TAct { t, act });
+    }
+  }
+  let mut wake_ids = vec![];
+  collect_script_ids(&chain, &mut wake_ids);
+  for id in wake_ids {
+    let mut t = 0;
+    for _ in 0..8 {
+      t += gaps[g.rng.below(gaps.len())] * MS + MS;
+      acts.push(TAct { t, act: Act::Wake(id) });
+    }
+  }
+  acts.sort_by_key(|a| a.t);
+  let last = acts.last().map_or(0, |a| a.t);
+  Pipe { chain, n_hot, acts, horizon: last + 60 * MS }
 }
